@@ -153,7 +153,7 @@ def one_process_per_task(ctx: Ctx):
         vals = {k.value: v for k, v in zip(kws.keys, kws.values) if isinstance(k, ast.Constant)}
     fv = ex.fvar
     th = vals.get('thunk')
-    th_x = expand_locals(g, rd, th, g.primary(c)) if th is not None else None
+    th_x = expand_locals(g, rd, th, g.primary(c), stop=[fv] if fv else []) if th is not None else None
     okk = fv is not None and same_expr(vals.get('future_id'), ast.parse(f'{fv}.id', mode='eval').body) \
         and th_x is not None and (same_expr(th_x, ast.parse(f'{sn}.{ex.pending}[{fv}]', mode='eval').body)
                                   or same_expr(th_x, ast.parse(f'{sn}.{ex.pending}.pop({fv})', mode='eval').body)) \
@@ -215,12 +215,19 @@ def fork_memory(ctx: Ctx):
     okd = bool(dels) and all(f.name == 'close' and f.cls is not None and f.cls.qualname == fr.qualname for (f, _n) in dels)
     yield ctx.ob('C16.FORK-MEMORY', okd, dels[0][0] if dels else init, dels[0][1] if dels else init.node, 'fork memory removed only in close()',
                  '' if okd else 'the fork memory entry is removed outside close() (children forked later would not find it) or never')
-    ffn = fr.methods.get('_fork_subprocess_func')
+    # the child-side function: the one in runners/process.py that reads REG[<uuid parameter>]
+    ffn = None
+    for f in ctx.P.all_functions():
+        if f.module.name.endswith('runners.process') and f.qualname != init.qualname and f.name != 'close':
+            for n in walk_local(f.node):
+                if isinstance(n, ast.Subscript) and isinstance(n.ctx, ast.Load) and dotted(n.value) == REG \
+                        and isinstance(n.slice, ast.Name) and n.slice.id in [a.arg for a in f.params]:
+                    ffn = f
     okr = False
     if ffn is not None:
         g = ctx.cfg(ffn)
         rd = ctx.rd(ffn)
-        calls = [c for c in calls_in(ffn.node) if isinstance(c.func, ast.Name) and c.func.id == '_subprocess_func']
+        calls = [c for c in calls_in(ffn.node) if kwarg(c, 'filtered_context') is not None and kwarg(c, 'results_map') is not None]
         if calls:
             kws = {k.arg: expand_locals(g, rd, k.value, g.primary(calls[0])) for k in calls[0].keywords}
             okr = same_expr(kws.get('results_map'), ast.parse(f'{REG}[uuid].results_map', mode='eval').body) \
@@ -266,12 +273,15 @@ def results_alias(ctx: Ctx):
 
 
 def _drain_method(ctx: Ctx) -> FuncInfo:
-    pr = ctx.P.cls('runners.process.ProcessRunner')
-    for m in pr.methods.values():
-        for c in calls_in(m.node):
+    """The function (method of the process runner, or a module-level helper it calls) that takes records off
+    the log queue."""
+    for f in ctx.P.all_functions():
+        if not f.module.name.endswith('runners.process'):
+            continue
+        for c in calls_in(f.node):
             if isinstance(c.func, ast.Attribute) and c.func.attr in ('get_nowait', 'get') and 'log_queue' in src(c.func.value):
-                return m
-    raise AnalysisError('no method of ProcessRunner takes records off the log queue')
+                return f
+    raise AnalysisError('no function in runners/process.py takes records off the log queue')
 
 
 @rule('C19.DRAIN-AFTER-WAIT', ['C19'])
@@ -462,8 +472,14 @@ def same_queue(ctx: Ctx):
         lq = kwarg(c, 'log_queue')
         if lq is not None:
             ok = same_expr(lq, ast.parse(f'{st.self_name}.log_queue', mode='eval').body)
-    drained = any(isinstance(c.func, ast.Attribute) and same_expr(c.func.value, ast.parse(f'{dm.self_name}.log_queue', mode='eval').body)
-                  for c in calls_in(dm.node))
+    if dm.self_name:
+        drained = any(isinstance(c.func, ast.Attribute) and same_expr(c.func.value, ast.parse(f'{dm.self_name}.log_queue', mode='eval').body)
+                      for c in calls_in(dm.node))
+    else:
+        # module-level drain(log_queue): every call passes the runner's own queue
+        w = ctx.P.find_method(pr, 'wait')
+        dcalls = [c for c in calls_in(w.node) if dm.qualname in ctx.P.resolve_call(c, w)]
+        drained = bool(dcalls) and all(c.args and same_expr(c.args[0], ast.parse(f'{w.self_name}.log_queue', mode='eval').body) for c in dcalls)
     yield ctx.ob('C19.SAME-QUEUE', ok and drained, st, st.node, 'submit_task passes self.log_queue, which the drain reads', '' if ok and drained else
                  'the queue handed to workers is not the one the runner drains')
     for f in ctx.P.implementations(pr.qualname, '_submit_task'):
@@ -598,48 +614,91 @@ def rel_all(ctx: Ctx):
 
 @rule('C20.CARDINALITY', ['C20'])
 def cardinality(ctx: Ctx):
-    """add_relationship: a new key stores the observation; an existing key is merged with OR."""
+    """add_relationship stores, for a new key, the observed cardinality and, for an existing key, OR(old, new)."""
     fn = ctx.P.func('diagram.TaskStructure.add_relationship')
     g = ctx.cfg(fn)
     rd = ctx.rd(fn)
+    fb = ctx.fb(fn)
     stores = [n for n in walk_local(fn.node) if isinstance(n, ast.Assign) and isinstance(n.targets[0], ast.Subscript)]
     sd = [c for c in calls_in(fn.node) if isinstance(c.func, ast.Attribute) and c.func.attr == 'setdefault' and len(c.args) == 2]
     if sd and not stores:
         yield ctx.ob('C20.CARDINALITY', False, fn, sd[0], 'merge of cardinality observations',
                      'add_relationship keeps only the first observation (setdefault): an arrow is marked "many" only if the first-seen instance held a collection')
         return
-    if len(stores) < 2:
-        yield ctx.ob('C20.CARDINALITY', False, fn, stores[0] if stores else fn.node, 'new-key store and merge store',
-                     'add_relationship does not distinguish a new relationship from merging into an existing one', construct='stores')
+    if not stores:
+        yield ctx.ob('C20.CARDINALITY', False, fn, fn.node, 'relationship store', 'add_relationship never stores a relationship', construct='stores')
         return
-    ok_new = ok_merge = False
-    for s in stores:
-        c = cond_from_entry(ctx, fn, s)
-        val = expand_locals(g, rd, s.value, g.primary(s))
-        isin = [a for a in atoms_of(c) if a[0] == 'atom' and a[1] == 'in']
-        if not isin:
+    from ..formula import atoms_of, ev, f_and, f_or, valuations, truthy_atom
+    new_atom = truthy_atom(ast.Name(id='multi_cardinality', ctx=ast.Load()))
+
+    def multi_expr(val):
+        """the multi_cardinality expression of a stored TaskRelInfo(...) (through locals)"""
+        v = expand_locals(g, rd, val, g.primary(st), stop=['multi_cardinality'])
+        if isinstance(v, ast.Call):
+            for k in v.keywords:
+                if k.arg == 'multi_cardinality':
+                    return k.value
+            if v.args:
+                return v.args[0]
+        return None
+    cases = []   # (path condition formula, stored-multi formula)
+    for st in stores:
+        c = cond_from_entry(ctx, fn, st)
+        e = multi_expr(st.value)
+        if e is None:
+            yield ctx.ob('C20.CARDINALITY', False, fn, st, 'stored relationship info', f'`{src(st)[:70]}` does not store a TaskRelInfo with a multi_cardinality')
+            return
+        class _Proj(ast.NodeTransformer):
+            # Ctor(field=X).field -> X
+            def visit_Attribute(self, node):
+                self.generic_visit(node)
+                if isinstance(node.value, ast.Call):
+                    for k in node.value.keywords:
+                        if k.arg == node.attr:
+                            return k.value
+                return node
+        ee = _Proj().visit(expand_locals(g, rd, e, g.primary(st), stop=['multi_cardinality']))
+        cases.append((c, fb.build(ee)))
+    # atoms: presence of the key (`key in rels`, or `rels.get(key)` / old info not None), the old flag, the new flag
+    allat = set()
+    for c, f in cases:
+        allat |= atoms_of(c) | atoms_of(f)
+    allat.add(new_atom)
+
+    def role(a):
+        t = repr(a)
+        if a == new_atom:
+            return 'new'
+        if a[0] == 'atom' and a[1] == 'in':
+            return 'present'
+        if a[0] == 'atom' and a[1] == 'isnone':
+            return 'absent'
+        if 'multi_cardinality' in t:
+            return 'old'
+        return 'other'
+    roles_ = {a: role(a) for a in allat}
+    ok_new = ok_merge = True
+    seen_new = seen_merge = False
+    for v in valuations(allat):
+        pres = [v[a] for a in allat if roles_[a] == 'present'] + [not v[a] for a in allat if roles_[a] == 'absent']
+        if pres and any(pres) != all(pres):
+            continue       # inconsistent presence indicators
+        present = bool(pres) and all(pres)
+        old = any(v[a] for a in allat if roles_[a] == 'old')
+        new = v[new_atom]
+        stored = [ev(f, v) for (c, f) in cases if ev(c, v)]
+        if len(stored) != 1:
+            ok_new = ok_merge = False
             continue
-        from ..formula import ev, valuations
-        pol = [ev(c, v) for v in valuations(atoms_of(c)) if v[isin[0]]]
-        if not any(pol):
-            # new key: value carries the observation unchanged
-            mcs = [k.value for k in val.keywords if k.arg == 'multi_cardinality'] if isinstance(val, ast.Call) else []
-            ok_new = bool(mcs) and isinstance(mcs[0], ast.Name) and mcs[0].id == 'multi_cardinality'
+        if present:
+            seen_merge = True
+            ok_merge = ok_merge and stored[0] == (old or new)
         else:
-            mcs = [k.value for k in val.keywords if k.arg == 'multi_cardinality'] if isinstance(val, ast.Call) else []
-            if mcs:
-                e = expand_locals(g, rd, mcs[0], g.primary(s))
-                have = formula_of(ctx, fn, e)
-                ats = sorted(atoms_of(have), key=repr)
-                ok_merge = isinstance(e, ast.BoolOp) and isinstance(e.op, ast.Or) and len(ats) == 2 \
-                    and any('multi_cardinality' in repr(a) and 'rels' in repr(a) or 'old' in repr(a) for a in ats)
-                # truth table of OR over the two atoms
-                if ok_merge:
-                    from ..formula import f_or
-                    ok_merge = equivalent(have, f_or(*ats))
-    yield ctx.ob('C20.CARDINALITY', ok_new, fn, stores[0], 'a new relationship stores the observed cardinality', '' if ok_new else
+            seen_new = True
+            ok_new = ok_new and stored[0] == new
+    yield ctx.ob('C20.CARDINALITY', ok_new and seen_new, fn, stores[0], 'a new relationship stores the observed cardinality', '' if ok_new and seen_new else
                  'a new relationship does not record the observed cardinality', construct='new')
-    yield ctx.ob('C20.CARDINALITY', ok_merge, fn, stores[-1], 'an existing relationship is merged with OR(old, new)', '' if ok_merge else
+    yield ctx.ob('C20.CARDINALITY', ok_merge and seen_merge, fn, stores[-1], 'an existing relationship is merged with OR(old, new)', '' if ok_merge and seen_merge else
                  'observations of the same relationship are not merged with OR: "many" depends on the order in which tasks are visited', construct='merge')
 
 
@@ -675,11 +734,17 @@ def one_block(ctx: Ctx):
     okd = bool(cp) and src(cp[0].generators[0].iter).endswith('.items()') and not cp[0].generators[0].ifs
     yield ctx.ob('C20.ONE-BLOCK', okd, dr, dr.node, 'one arrow per relationship key', '' if okd else 'not every relationship produces an arrow',
                  construct='arrows')
-    fm = dr.nested.get('format_many')
     okf = False
+    fm = None
+    for c in calls_in(dr.node):
+        for q in ctx.P.resolve_call(c, dr, by_name=False):
+            if q in ctx.P.funcs and len(ctx.P.funcs[q].params) == 1 and c.args and isinstance(c.args[0], ast.Attribute) \
+                    and c.args[0].attr == 'multi_cardinality':
+                fm = ctx.P.funcs[q]
     if fm is not None:
+        pn = fm.params[0].arg
         ifs = [n for n in walk_local(fm.node) if isinstance(n, ast.If)]
-        okf = len(ifs) == 1 and equivalent(formula_of(ctx, fm, ifs[0].test), formula_of(ctx, fm, 'multi_cardinality')) \
+        okf = len(ifs) == 1 and equivalent(formula_of(ctx, fm, ifs[0].test), formula_of(ctx, fm, pn)) \
             and any(isinstance(s, ast.Return) and isinstance(s.value, ast.Constant) and 'many' in s.value.value for s in ifs[0].body)
     else:
         # inlined form: a conditional expression '"many" ' if <info>.multi_cardinality else ''
